@@ -266,8 +266,39 @@ def build(kind, M, S, mapname, K, std="lite"):
              K=K, funcs=FUNCS, cfg=dict(kind=kind, masters=M, slaves=S, map=mapname, amap=MAPS[mapname][:S]), show=top.showl, vcycles=30, excuses=exc)
 
 
+class LockCounter(Mon):
+    """the outstanding-request counter behind every grant / slave-select lock, instantiated as the arbiters and decoders instantiate it (default
+    capacity): ONE STEP FROM AN ARBITRARY COUNTER VALUE it follows the number of outstanding requests exactly - +1 on a request alone, -1 on a
+    response alone, unchanged on both or none - for every count below 255, never wraps below zero, and `ready` (lock released) means zero."""
+
+    def __init__(self, std):
+        from litex.soc.interconnect.axi import axi_lite, axi_full
+        cls = axi_lite._AXILiteRequestCounter if std == "lite" else axi_full._AXIRequestCounter
+        self.req = Signal(name_override="request"); self.resp = Signal(name_override="response")
+        self.submodules.dut = dut = cls(request=self.req, response=self.resp)
+        self.free = [self.req, self.resp]
+        c = dut.counter
+        pc = self.reg(len(c) + 1, "p_count"); pq = self.reg(1, "p_req"); pr = self.reg(1, "p_resp"); st = self.reg(1, "started")
+        self.sync += [pc.eq(c), pq.eq(self.req), pr.eq(self.resp), st.eq(1)]
+        exp = Signal(len(c) + 1)
+        self.comb += exp.eq(Mux(pq & ~pr, pc + 1, Mux(pr & ~pq & (pc != 0), pc - 1, pc)))
+        self.bad = Signal(name_override="bad_lock_counter")
+        self.comb += self.bad.eq(st & (pc < 255) & (c != exp))
+        self.bad_ready = Signal(name_override="bad_lock_ready")
+        self.comb += self.bad_ready.eq(dut.ready != (c == 0))
+        self.w = Signal(name_override="w_many_outstanding")
+        self.comb += self.w.eq(st & (pc == 200) & pq & ~pr & (c == 201))
+
+
+def build_lock(std):
+    m = LockCounter(std)
+    return H("lock_counter_%s" % std, m, m.free, bad=dict(counts_outstanding_requests_up_to_255=m.bad, ready_means_none_outstanding=m.bad_ready), witness=dict(counts_beyond_200=m.w),
+             K=2, mode="step", init_reset=m.mregs, funcs=["litex.soc.interconnect.axi.axi_lite._AXILiteRequestCounter", "litex.soc.interconnect.axi.axi_full._AXIRequestCounter"],
+             cfg=dict(std=std), show=[m.req, m.resp, m.dut.counter], vcycles=20)
+
+
 def jobs(tier):
-    js = []
+    js = [Job("lock_counter_lite", build_lock, dict(std="lite"), cost=1), Job("lock_counter_full", build_lock, dict(std="full"), cost=1)]
     if tier == "thorough":
         # K sized from measured solver times (a crossbar holds M decoders and S arbiters): shared K=14, small crossbars K=12, larger K=10
         cfgs = [("shared", m, s, mp, 14) for (m, s) in ((1, 2), (2, 1), (2, 2), (2, 3), (3, 2), (3, 3)) for mp in ("adjacent", "hole")]
